@@ -3,10 +3,13 @@
 package filtering
 
 import (
+	"bufio"
+	"bytes"
 	"fmt"
 	"net/http"
 	"net/http/httptest"
 	"os"
+	"path/filepath"
 	"strings"
 	"sync"
 	"testing"
@@ -48,6 +51,89 @@ func c14Stored(body string) []byte {
 	return []byte(b.String())
 }
 
+// c14Numbered is a rule list of EXACTLY size bytes made of numbered rule lines
+// ("||n000000007.example^$client=ccc...\n", lineLen bytes each, the last one
+// longer or shorter), with no comment and no blank line, so that what must be
+// stored is the body itself and completeness can be judged from the file alone:
+// line k carries number k, there are `lines` of them, size bytes in all.
+func c14Numbered(size, lineLen int) (body []byte, lines int) {
+	const minLine = 22 // "||n000000000.example^\n"
+	line := func(k, n int) []byte {
+		b := []byte(fmt.Sprintf("||n%09d.example^", k))
+		if n-1 > len(b) {
+			pad := n - 1 - len(b)
+			if pad >= 8 {
+				b = append(b, "$client="...)
+				pad -= 8
+			}
+			b = append(b, bytes.Repeat([]byte("c"), pad)...)
+		}
+		return append(b, '\n')
+	}
+	switch {
+	case size == 0:
+		return nil, 0
+	case size == 1:
+		return []byte("x"), 1 // no newline: the parser adds one
+	case size < minLine:
+		return append(bytes.Repeat([]byte("x"), size-1), '\n'), 1
+	}
+	if lineLen < minLine {
+		lineLen = minLine
+	}
+	n, rem := size/lineLen, size%lineLen
+	body = make([]byte, 0, size)
+	for k := 0; k < n; k++ {
+		l := lineLen
+		if k == n-1 && rem > 0 && rem < minLine {
+			l += rem // the last full line takes the rest
+		}
+		body = append(body, line(k, l)...)
+	}
+	if rem >= minLine || n == 0 {
+		body = append(body, line(n, size-len(body))...)
+		n++
+	}
+	if len(body) != size {
+		panic(fmt.Sprintf("c14Numbered(%d, %d) built %d bytes", size, lineLen, len(body)))
+	}
+	return body, n
+}
+
+// c14CheckNumbered judges the stored file on its own: size bytes, `lines`
+// lines, line k numbered k (first, last and every one in between).
+func c14CheckNumbered(path string, size, lines int) (bad string) {
+	f, err := os.Open(path)
+	if err != nil {
+		return fmt.Sprintf("stored list unreadable: %v", err)
+	}
+	defer f.Close()
+	sc := bufio.NewScanner(f)
+	sc.Buffer(make([]byte, 1<<20), 1<<20)
+	k, total := 0, 0
+	last := ""
+	for sc.Scan() {
+		ln := sc.Bytes()
+		total += len(ln) + 1
+		if size >= 22 && !bytes.HasPrefix(ln, []byte(fmt.Sprintf("||n%09d.example^", k))) {
+			return fmt.Sprintf("line %d of the stored list is %.40q, want the rule numbered %d (of %d)", k, ln, k, lines)
+		}
+		last = string(ln[:min(len(ln), 24)])
+		k++
+	}
+	if err := sc.Err(); err != nil {
+		return fmt.Sprintf("reading the stored list: %v", err)
+	}
+	want := size
+	if size == 1 {
+		want = 2
+	}
+	if k != lines || total != want {
+		return fmt.Sprintf("the stored list has %d lines / %d bytes, the served one %d lines / %d bytes: last line %q", k, total, lines, want, last)
+	}
+	return ""
+}
+
 func TestVerifC14(t *testing.T) {
 	s := verifc14.Start(t, "filtering")
 	if s == nil {
@@ -59,7 +145,8 @@ func TestVerifC14(t *testing.T) {
 	type answer struct {
 		status int
 		body   string
-		cutAt  int // >0: announce the full length, send this many bytes, drop the connection
+		cutAt  int    // >0: announce the full length, send this many bytes, drop the connection
+		raw    []byte // served as it is (large generated lists)
 	}
 	var (
 		mu  sync.Mutex
@@ -85,6 +172,10 @@ func TestVerifC14(t *testing.T) {
 		}
 		if a.status != 0 && a.status != 200 {
 			w.WriteHeader(a.status)
+			return
+		}
+		if a.raw != nil {
+			w.Write(a.raw)
 			return
 		}
 		w.Write([]byte(a.body))
@@ -117,9 +208,60 @@ func TestVerifC14(t *testing.T) {
 		a := ans[path(f)]
 		mu.Unlock()
 		if !expectErr {
-			c.Want(c14Stored(a.body))
+			if a.raw != nil {
+				c.Want(a.raw)
+			} else {
+				c.Want(c14Stored(a.body))
+			}
 		}
+		c.Kind = "update"
 		return c.SaveB(label, expectErr, func() (bool, error) { return d.update(f) })
+	}
+	// stored puts a small list at the destination through the real update
+	stored := func(d *DNSFilter, f *FilterYAML, what string) {
+		serve(path(f), answer{body: "||before-" + what + ".example^\n||second.example^\n"})
+		if ok, err := d.update(f); !ok || err != nil {
+			t.Fatalf("%s: preparing the stored list: %v %v", what, ok, err)
+		}
+	}
+
+	if s.Inject != "" {
+		// ---- every fsync (resp. every rename) of the process fails: the refresh
+		// must report the error and leave the stored list as it was.  The stored
+		// list is put there directly (no save can succeed in this run).
+		for i, present := range []bool{true, false, true} {
+			d, f := newFilter()
+			dst := f.Path(d.conf.DataDir)
+			cls := []string{"filtering", "failed-save", "fail-" + s.Inject}
+			if present {
+				if err := os.WriteFile(dst, []byte("||stored-before.example^\n"), 0o644); err != nil {
+					t.Fatal(err)
+				}
+				cls = append(cls, "dst-present")
+			} else {
+				cls = append(cls, "dst-absent")
+			}
+			if i == 2 {
+				s.TmpShared()
+				cls = append(cls, "tmp-in-tmpdir")
+			} else {
+				s.TmpInDstDir()
+				cls = append(cls, "tmp-in-dstdir")
+			}
+			body, _ := c14Numbered(300+40000*i, 40)
+			serve(path(f), answer{raw: body})
+			s.Case(fmt.Sprintf("inject-%s-%d", s.Inject, i), dst, nil, cls, func(c *verifc14.Case) {
+				c.Kind = "update"
+				c.SaveInjected("update", func() error {
+					ok, err := d.update(f)
+					if ok {
+						c.Fail("update reported the list as replaced although every %s fails", s.Inject)
+					}
+					return err
+				})
+			})
+		}
+		return
 	}
 
 	// ---- prelude: one representative per class, small lists (byte mode)
@@ -312,6 +454,7 @@ func TestVerifC14(t *testing.T) {
 			stored := len(c14Stored(body))
 			lim := sc.limit(stored)
 			c.Info["limit"], c.Info["size"] = lim, stored
+			c.Kind = "update"
 			if err := c.SaveLimited("update-limited", lim, func() error { _, err := d.update(f); return err }); err == nil {
 				c.Fail("update storing %d bytes under a file size limit of %d reported success", stored, lim)
 			}
@@ -349,6 +492,85 @@ func TestVerifC14(t *testing.T) {
 				c.SaveConcurrent(fmt.Sprintf("triple-%d", k), jobs)
 			}
 		})
+	}
+
+	// ---- creation of the temporary file fails (no descriptor to be had: EMFILE)
+	for i, present := range []bool{true, false} {
+		d, f := newFilter()
+		dst := f.Path(d.conf.DataDir)
+		cls := []string{"filtering", "failed-save", "tmp-in-dstdir"}
+		if present {
+			stored(d, f, "nofile")
+			cls = append(cls, "dst-present")
+		} else {
+			cls = append(cls, "dst-absent")
+		}
+		body, _ := c14Numbered(500+3000*i, 40)
+		serve(path(f), answer{raw: body})
+		s.Case(fmt.Sprintf("fail-open-%d", i), dst, nil, cls, func(c *verifc14.Case) {
+			c.Kind = "update"
+			c.SaveNoFile("update-nofile", func() error {
+				ok, err := d.update(f)
+				if ok {
+					c.Fail("update reported the list as replaced although no temporary file could be created")
+				}
+				return err
+			})
+			upd(c, d, f, "update-after-failure", false)
+		})
+	}
+
+	// ---- exact content sizes, from empty to tens of megabytes: the served list is
+	// generated (numbered rules), replaces a small stored list, and the stored
+	// file must be the WHOLE list: same length, same bytes, every rule from
+	// number 0 to the last.  One size above 32 MiB also runs in the quick tier
+	// (not 32 MiB + 1: a list cut just before its final newline is stored
+	// complete, the parser terminates the last line itself).
+	exact := []int{0, 1, 4095, 4096, 4097, 65535, 65536, 65537, 1600000, 32<<20 + 4099}
+	if s.Tier == "thorough" {
+		exact = append(exact, 16<<20-1, 16<<20, 16<<20+1, 32<<20-1, 32<<20, 32<<20+1, 32<<20+2, 40<<20)
+	}
+	for _, sz := range exact {
+		d, f := newFilter()
+		dst := f.Path(d.conf.DataDir)
+		stored(d, f, "exact")
+		ll := 24 + sz%17
+		if sz >= 1<<20 {
+			ll = 900 + sz%7
+		}
+		if sz > 32<<20 && s.Tier != "thorough" {
+			ll = 4000 + sz%7 // the one large list of the quick tier: fewer, longer rules
+		}
+		body, lines := c14Numbered(sz, ll)
+		serve(path(f), answer{raw: body})
+		cls := []string{"filtering", "dst-present", "tmp-in-dstdir", "updated", "exact-size", fmt.Sprintf("size>=%dKiB", sz>>10)}
+		if sz > 32<<20 {
+			cls = append(cls, "size>32MiB")
+		}
+		s.Case(fmt.Sprintf("exact-size-%d", sz), dst, nil, cls, func(c *verifc14.Case) {
+			c.Info["served_bytes"], c.Info["served_rules"] = sz, lines
+			if sz == 1 {
+				c.Want([]byte("x\n"))
+			} else {
+				c.Want(body)
+			}
+			c.Kind = "update"
+			ok, err := c.SaveB("update-exact", false, func() (bool, error) { return d.update(f) })
+			if !ok || err != nil {
+				c.Fail("refresh with a list of %d bytes (%d rules): updated=%v err=%v", sz, lines, ok, err)
+				return
+			}
+			bad := c14CheckNumbered(dst, sz, lines)
+			c.Info["stored_list_check"] = bad
+			if bad != "" {
+				c.Fail("refresh with a list of %d bytes reported success but %s holds neither the previous nor the complete new version: %s",
+					sz, filepath.Base(dst), bad)
+			}
+			if f.RulesCount != lines {
+				c.Fail("refresh with a list of %d rules reports %d rules", lines, f.RulesCount)
+			}
+		})
+		serve(path(f), answer{})
 	}
 
 	// ---- sizes, each: download, changed refresh, failed refresh, unchanged refresh
@@ -408,6 +630,7 @@ func TestVerifC14(t *testing.T) {
 					if stored := len(c14Stored(body)); stored > 0 {
 						serve(path(f), answer{body: body})
 						lim := uint64(r.Intn(stored))
+						c.Kind = "update"
 						c.SaveLimited(fmt.Sprintf("%d-limited(%d of %d)", j, lim, stored), lim, func() error { _, err := d.update(f); return err })
 						c.Class("failed-save")
 					}
